@@ -1,15 +1,27 @@
 #!/bin/bash
 # usage: try_seeded.sh <seeded dir containing patch.diff> <check id>...
-# applies the seeded change to /repo, runs the quick checks named, prints one line per check, restores /repo.
+# runs the quick checks named against a tree that carries the seeded change and prints one line per check.
+# The change is applied to a scratch copy of /repo's working tree (VERIF_REPO points the checks at it), so that
+# checks running elsewhere at the same time (background sweeps) never see it; with TRY_IN_PLACE=1 it is applied to
+# /repo itself (git -C /repo apply ...; git -C /repo checkout -- . afterwards), which is equivalent.
 # Evidence and replay files of these experimental runs go to a scratch directory.
 set -u
 S=$(cd "$1" && pwd); shift
 OUT=/dev/shm/w/seeded/$(basename "$S")
 mkdir -p "$OUT"
-cd /repo || exit 2
-if [ -n "$(git status --porcelain --untracked-files=no)" ]; then echo "/repo has local modifications: refusing"; exit 2; fi
-git apply "$S/patch.diff" || { echo "patch does not apply"; exit 2; }
-trap 'git -C /repo checkout -- . ' EXIT
+if [ -n "${TRY_IN_PLACE:-}" ]; then
+  cd /repo || exit 2
+  if [ -n "$(git status --porcelain --untracked-files=no)" ]; then echo "/repo has local modifications: refusing"; exit 2; fi
+  git apply "$S/patch.diff" || { echo "patch does not apply"; exit 2; }
+  trap 'git -C /repo checkout -- . ' EXIT
+  export VERIF_REPO=/repo
+else
+  T=/dev/shm/w/seedrepo.$$
+  mkdir -p "$T" && rsync -a --delete --exclude .git --include "/tests/*.l" --include "/tests/*.ll" --include "/tests/*.lll" --include "/tests/*.lex" --include "/tests/*.txt" --exclude "/tests/*" /repo/ "$T/" || exit 2
+  trap 'rm -rf "$T"' EXIT
+  (cd "$T" && patch -s -p1 < "$S/patch.diff") || { echo "patch does not apply"; exit 2; }
+  export VERIF_REPO=$T
+fi
 for c in "$@"; do
   t0=$(date +%s)
   VERIF_EVIDENCE_DIR=$OUT VERIF_REPLAY_DIR=$OUT timeout ${TRY_TIMEOUT:-900} python3 /verif/sim/check.py "$c" --tier quick > "$OUT/$c.log" 2>&1
